@@ -274,6 +274,141 @@ static void check_ctx_released(const char *who)
     }
 }
 
+/* ---- heap ledger: blocks the library's objects allocate (malloc family interposed in this link) while an XCM API
+   call is in progress, and that are still allocated.  libc- and OpenSSL-internal allocations are not seen here (the
+   mallinfo2 figure covers those); the ledger tells WHAT is left when the steady-state oracle says the heap grows:
+   size, and the API call inside which it was allocated. */
+void *__real_malloc(size_t n);
+void *__real_calloc(size_t a, size_t b);
+void *__real_realloc(void *p, size_t n);
+void __real_free(void *p);
+
+#define LG_BITS 16
+#define LG_SIZE (1u << LG_BITS)
+#define LG_TOMB ((void *)1)
+struct lg_ent {
+    void *p;
+    uint32_t size;
+    uint16_t rep;
+    uint16_t api;
+};
+static struct lg_ent g_lg[LG_SIZE];
+static int g_lg_live, g_lg_used;
+static long g_lg_bytes;
+static char g_lg_api[32][28];
+static int g_lg_napi;
+
+static unsigned lg_hash(void *p)
+{
+    return (unsigned)((((uintptr_t)p >> 4) * 0x9e3779b97f4a7c15ULL) >> (64 - LG_BITS));
+}
+
+static int lg_api_idx(const char *api)
+{
+    for (int i = 0; i < g_lg_napi; i++)
+        if (!strcmp(g_lg_api[i], api))
+            return i;
+    if (g_lg_napi < 32) {
+        snprintf(g_lg_api[g_lg_napi], sizeof g_lg_api[0], "%s", api);
+        return g_lg_napi++;
+    }
+    return 0;
+}
+
+static void lg_add(void *p, size_t n)
+{
+    const char *api = mc_cur_api();
+    if (!p || !api[0] || g_lg_used > (int)(LG_SIZE * 3 / 4))
+        return;
+    unsigned i = lg_hash(p);
+    while (g_lg[i].p && g_lg[i].p != LG_TOMB)
+        i = (i + 1) & (LG_SIZE - 1);
+    if (!g_lg[i].p)
+        g_lg_used++;
+    g_lg[i].p = p;
+    g_lg[i].size = (uint32_t)n;
+    g_lg[i].rep = (uint16_t)g_rep;
+    g_lg[i].api = (uint16_t)lg_api_idx(api);
+    g_lg_live++;
+    g_lg_bytes += (long)n;
+}
+
+static void lg_del(void *p)
+{
+    if (!p || !g_lg_live)
+        return;
+    unsigned i = lg_hash(p);
+    while (g_lg[i].p) {
+        if (g_lg[i].p == p) {
+            g_lg[i].p = LG_TOMB;
+            g_lg_live--;
+            g_lg_bytes -= g_lg[i].size;
+            return;
+        }
+        i = (i + 1) & (LG_SIZE - 1);
+    }
+}
+
+void *__wrap_malloc(size_t n)
+{
+    void *p = __real_malloc(n);
+    lg_add(p, n);
+    return p;
+}
+void *__wrap_calloc(size_t a, size_t b)
+{
+    void *p = __real_calloc(a, b);
+    lg_add(p, a * b);
+    return p;
+}
+void *__wrap_realloc(void *o, size_t n)
+{
+    void *p = __real_realloc(o, n);
+    if (p || n == 0) {
+        lg_del(o);
+        lg_add(p, n);
+    }
+    return p;
+}
+void __wrap_free(void *p)
+{
+    lg_del(p);
+    __real_free(p);
+}
+
+/* the blocks allocated during repetition `rep` that are still there: "37904 B in xcm_accept_a x3, ..." */
+static const char *lg_describe(int rep)
+{
+    static char b[300];
+    struct { uint32_t size; uint16_t api; int n; } agg[6];
+    int na = 0, more = 0;
+    for (unsigned i = 0; i < LG_SIZE; i++) {
+        if (!g_lg[i].p || g_lg[i].p == LG_TOMB || g_lg[i].rep != rep)
+            continue;
+        int k;
+        for (k = 0; k < na; k++)
+            if (agg[k].size == g_lg[i].size && agg[k].api == g_lg[i].api)
+                break;
+        if (k < na)
+            agg[k].n++;
+        else if (na < 6) {
+            agg[na].size = g_lg[i].size;
+            agg[na].api = g_lg[i].api;
+            agg[na++].n = 1;
+        } else
+            more++;
+    }
+    size_t o = 0;
+    b[0] = 0;
+    for (int k = 0; k < na && o + 60 < sizeof b; k++)
+        o += (size_t)snprintf(b + o, sizeof b - o, "%s%u B in %s x%d", k ? ", " : "", agg[k].size, g_lg_api[agg[k].api], agg[k].n);
+    if (more && o + 20 < sizeof b)
+        snprintf(b + o, sizeof b - o, ", +%d more", more);
+    if (!na)
+        snprintf(b, sizeof b, "none (the growth is in libc/OpenSSL-internal allocations)");
+    return b;
+}
+
 /* shutdown() is not interposed by the shim: a forked child that shuts down an inherited socket alters the owner's */
 int __real_shutdown(int fd, int how);
 int __wrap_shutdown(int fd, int how)
@@ -1422,6 +1557,77 @@ static void sc_conn_variant(const char *what)
     sclose(&srv);
 }
 
+/* a control client that sends what libxcmctl never sends.  Every datagram is followed by enough API calls for the
+   library to read it; after a malformed one the library drops the client, which then reconnects. */
+static void sc_ctlbad(void)
+{
+    char addr[200];
+    static struct ctl_proto_msg req;
+    static unsigned char big[sizeof(struct ctl_proto_msg) + 64];
+    mkaddr(addr, sizeof addr, 1, NULL);
+    struct xcm_socket *srv = do_server(addr, BAD_NONE);
+    MUST(srv, "server");
+    if (!srv)
+        return;
+    /* this scenario is about what the client sends; faults at the control accepts are scenario ctlclient's business */
+    g_window = 0;
+    /* (a) well-formed: get-attr, get-all */
+    int cfd = ctl_client_connect();
+    MUST(cfd >= 0, "control client connect");
+    if (cfd >= 0) {
+        poke_ctl(srv);
+        int r1 = ctl_roundtrip(srv, cfd, 0);
+        MUST(r1 == 0, "control round trip");
+        memset(&req, 0, sizeof req);
+        req.type = ctl_proto_type_get_all_attr_req;
+        if (send(cfd, &req, sizeof req, MSG_NOSIGNAL) == (ssize_t)sizeof req) {
+            static struct ctl_proto_msg rsp;
+            for (int i = 0; i < 4; i++) {
+                poke_ctl(srv);
+                if (recv(cfd, &rsp, sizeof rsp, 0) > 0)
+                    break;
+            }
+        }
+        raw_close(&cfd);
+        poke_ctl(srv);
+    }
+    /* (b) right size, attribute name without terminator  (c) right size, unknown type
+       (d) wrong sizes: 1 byte, one short, one long, empty */
+    for (int k = 0; k < 6; k++) {
+        cfd = ctl_client_connect();
+        if (cfd < 0)
+            break;
+        poke_ctl(srv);
+        size_t len = sizeof req;
+        const void *buf = &req;
+        memset(&req, 0, sizeof req);
+        memset(big, 0x5a, sizeof big);
+        switch (k) {
+        case 0:
+            req.type = ctl_proto_type_get_attr_req;
+            memset(req.get_attr_req.attr_name, 'a', sizeof req.get_attr_req.attr_name);
+            break;
+        case 1: req.type = (enum ctl_proto_type)77; break;
+        case 2: buf = big; len = 1; break;
+        case 3: buf = big; len = sizeof req - 1; break;
+        case 4: buf = big; len = sizeof req + 1; break;
+        default: buf = big; len = 0; break;
+        }
+        ssize_t rc = send(cfd, buf, len, MSG_NOSIGNAL);
+        mc_observe("malformed control request %d -> %s", k, rc == (ssize_t)len ? "sent" : errname(errno));
+        poke_ctl(srv);
+        poke_ctl(srv);
+        if (k % 2 == 0)
+            raw_close(&cfd);        /* sometimes the client goes first, sometimes the socket (below) */
+        poke_ctl(srv);
+        if (cfd >= 0 && k != 5)
+            raw_close(&cfd);
+    }
+    sclose(&srv);                   /* with the last client still attached */
+    raw_close(&cfd);
+    g_window = 1;
+}
+
 /* hand-over: the parent accepts a connection, forks a worker for it and xcm_cleanup()s its own copy (it keeps the
    server); the worker xcm_cleanup()s the server and the client end it inherited, serves and closes the connection */
 static void sc_handover(void)
@@ -1568,6 +1774,7 @@ static void body(void)
     else if (!strcmp(g_sc, "conn-local")) sc_conn_variant("local");
     else if (!strcmp(g_sc, "conn-dns")) sc_conn_variant("dns");
     else if (!strcmp(g_sc, "dns-fail")) sc_conn_variant("fail");
+    else if (!strcmp(g_sc, "ctlbad")) sc_ctlbad();
     else if (!strcmp(g_sc, "handover")) sc_handover();
     else if (!strcmp(g_sc, "forkn")) sc_forkn();
     else if (!strcmp(g_sc, "ctlclient")) sc_ctlclient(0);
@@ -1813,9 +2020,25 @@ static void scenario(const char *params)
                   "injected fault(s): %s", full.stray, g_sc, faults_descr());
     }
     if (heap_leak && !full.nleak) {
-        snprintf(sig, sizeof sig, "C08/heap-leak/after=%s/tp=%s", faults_descr(), g_tp);
+        /* blame: does the heap grow in the same way without any fault?  Then the faults are not the cause. */
+        const char *after = faults_descr();
+        if (g_nfrec > 0) {
+            long b0 = heap_now(), b1, b2;
+            rep_begin(M_REPLAY, 0, 30);
+            body();
+            b1 = heap_now();
+            rep_begin(M_REPLAY, 0, 31);
+            body();
+            b2 = heap_now();
+            g_mode = M_PASS;
+            mc_count(2, 2);
+            if (b1 > b0 && b2 > b1)
+                after = "none";
+        }
+        snprintf(sig, sizeof sig, "C08/heap-leak/after=%s/tp=%s", after, g_tp);
         VIOL(sig, "the heap does not return to its steady state although no descriptor is left: %s (+%ld per repetition); "
-                  "scenario %s, injected fault(s): %s", heaptxt, h3 - h2, g_sc, faults_descr());
+                  "blocks allocated by the library during the last repetition and never freed: %s; scenario %s, injected "
+                  "fault(s): %s", heaptxt, h3 - h2, lg_describe(g_rep), g_sc, faults_descr());
     }
     /* sanitizer build with leak detection enabled: blocks that nothing points to any more (one-off leaks included) */
     if (__lsan_do_recoverable_leak_check && param_int(params, "lsan", 0)) {
